@@ -99,6 +99,7 @@ Definition after_adv (f : fact) (a : lenexp) : fact :=
 
 Definition safe_step (f : fact) (u : uop) : option fact :=
   match u with
+  | UIf _ _ => None
   | UGuard s e => Some (if simple e then FGe s e else f)
   | UInt s fld w _ acc =>
       match acc with
@@ -126,31 +127,73 @@ Definition safe_step (f : fact) (u : uop) : option fact :=
   | UOpaque _ => None
   end.
 
-Fixpoint safe_uops (f : fact) (us : list uop) : bool :=
-  match us with
-  | [] => true
-  | u :: r => match safe_step f u with Some f' => safe_uops f' r | None => false end
+(* Conditional operations ([UIf c u]): besides the fact that holds unconditionally, the analysis keeps one fact that
+   holds when condition c does.  Inside a conditional block the conditional fact is used and updated; the
+   unconditional one is weakened by whatever the operation may have changed (a field: facts mentioning it; the
+   offset: everything).  Any unconditional operation drops the conditional fact. *)
+Definition ucond_eqb (a b : ucond) : bool :=
+  match a, b with UCWcEq x, UCWcEq y => x =? y end.
+
+Definition astate := (fact * option (ucond * fact))%type.
+
+Definition base_of (a : astate) (c : ucond) : fact :=
+  match snd a with
+  | Some (c', fc) => if ucond_eqb c c' then fc else fst a
+  | None => fst a
   end.
 
-Definition cmd_safe (c : cmd_desc) : bool := safe_uops FZero (cd_unmarshal c).
+Definition uncond_after (f : fact) (u : uop) : fact :=
+  match u with
+  | UGuard _ _ => f
+  | UInt _ fld _ _ _ => forget_field f fld
+  | UBytes _ fld _ => forget_field f fld
+  | _ => FNone
+  end.
+
+Definition cond_body (u : uop) : bool :=
+  match u with UGuard _ _ | UInt _ _ _ _ _ | UBytes _ _ _ | UAdv _ => true | _ => false end.
+
+Definition safe_step2 (a : astate) (u : uop) : option astate :=
+  match u with
+  | UIf c u' =>
+      if cond_body u' then
+        match safe_step (base_of a c) u' with
+        | Some fc' => Some (uncond_after (fst a) u', Some (c, fc'))
+        | None => None
+        end
+      else None
+  | ULet x _ =>
+      if String.eqb x wc_var then None
+      else match safe_step (fst a) u with Some f' => Some (f', None) | None => None end
+  | _ => match safe_step (fst a) u with Some f' => Some (f', None) | None => None end
+  end.
+
+Fixpoint safe_uops (a : astate) (us : list uop) : bool :=
+  match us with
+  | [] => true
+  | u :: r => match safe_step2 a u with Some a' => safe_uops a' r | None => false end
+  end.
+
+Definition cmd_safe (c : cmd_desc) : bool := safe_uops (FZero, None) (cd_unmarshal c).
 
 (* the first read the analysis cannot justify, as a finding key "<Structure>/<Field>/unguarded-access" *)
-Definition uop_field (u : uop) : string :=
+Fixpoint uop_field (u : uop) : string :=
   match u with
+  | UIf _ u' => uop_field u'
   | UInt _ f _ _ _ | UBytes _ f _ | UNested _ f _ _ | UNested0 _ f _ => f
   | UAdv _ => "<advance>"
   | UOpaque _ => "<untranslated statement>"
   | _ => "<other>"
   end.
 
-Fixpoint first_unsafe (f : fact) (us : list uop) : option string :=
+Fixpoint first_unsafe (a : astate) (us : list uop) : option string :=
   match us with
   | [] => None
-  | u :: r => match safe_step f u with Some f' => first_unsafe f' r | None => Some (uop_field u) end
+  | u :: r => match safe_step2 a u with Some a' => first_unsafe a' r | None => Some (uop_field u) end
   end.
 
 Definition unsafe_keys (c : cmd_desc) : list string :=
-  match first_unsafe FZero (cd_unmarshal c) with
+  match first_unsafe (FZero, None) (cd_unmarshal c) with
   | None => []
   | Some fld => [key (cd_name c) fld "unguarded-access"]
   end.
